@@ -10,7 +10,7 @@ sys.path.insert(0, HERE)
 class P(vlib.Prop):
     pid = "C05"
     coq_dirs = ["Common", "C05"]
-    coq_targets = ["C05/Properties.vo", "C05/Witness.vo", "C05/Harness.vo"]
+    coq_targets = ["C05/Properties.vo", "C05/Witness.vo", "C05/Harness.vo", "C05/Clauses.vo"]
     properties_module = "C05.Properties"
     properties_file = "C05/Properties.v"
     instance_obligations = []  # the tie obligations are theorems tie_* of Properties.v (lemmas of C05/Tie.v)
@@ -33,7 +33,7 @@ class P(vlib.Prop):
             "Shutdown completed inside attempt 0 (regression stream for the repaired S4, fix 9628cae8b): no attempt may start after "
             "Shutdown returned and the error must be shutdown-classified; compared exactly.  Family 4: groups of 2-6 requests through ONE exporter — one after another, concurrently, and concurrently "
             "with Shutdown while >= 2 of them wait in back-off, others are mid-attempt, are sent afterwards or finished before; requests may carry their own far or cutting deadline or be cancelled from inside an attempt; every "
-            "request is its own case (fresh back-off and budget per request, shutdown reaches every request).  Kind 1: BackOffConfig.Validate on "
+            "request is its own case (fresh back-off and budget per request, shutdown reaches every request).  Every observed case is additionally checked by the decidable clause checker coq/C05/Clauses.v prop_ok (no model step function).  Kind 2: TimeoutConfig.Validate.  Kind 1: BackOffConfig.Validate on "
             "generated configurations vs the translated Coq function.  A case is non-trivial when it has >= 2 attempts or a "
             "non-nil final error (retry) / a rejected configuration (validate); distinct = distinct case terms.")
     trusted_base = [
@@ -52,6 +52,40 @@ class P(vlib.Prop):
         "time spent by retrySender between the return of an attempt and time.Now() is negligible (harness: bounded by the 60 ms margin; runs with timer jitter > 25 ms are repeated)",
     ]
 
+    CLAUSES = {1: "first-attempt-carries-the-request", 2: "attempt-followed-only-if-retryable-fits-and-not-stopped",
+               3: "resend-is-the-named-remainder", 4: "entered-wait-at-least-throttle-within-envelope-and-fits",
+               5: "run-ends-only-for-a-reason", 6: "returned-error-classification", 7: "timeout-per-attempt",
+               8: "no-attempt-after-shutdown"}
+
+    def extra_checks(self, ctx):
+        """Clause checker (coq/C05/Clauses.v prop_ok) over ALL observed cases: an oracle on the implementation's
+        observed behaviour that does not use the model's step function.  A case that violates a clause is a
+        failing input of the property (kind = clause-<n>-<name>)."""
+        import re
+        terms = [c["term"] for c in ctx.cases]
+        if not terms:
+            return
+        mods = "C05.Harness C05.Clauses"
+        failed = vlib.coq_eval_cases(ctx, mods, "prop_ok", self.case_type, terms, shard=self.shard)
+        ctx.extra_coverage["clause_checker"] = {"cases": len(terms), "violating": len(failed)}
+        # prefer cases on which model and implementation also disagree (they come first in the report)
+        dis = {m["term"] for m in ctx.mismatches}
+        failed.sort(key=lambda i: (terms[i] not in dis, len(terms[i])))
+        seen = set()
+        for i in failed[:40]:
+            r = vlib.coq_eval_term(ctx, mods, "violations (%s)" % terms[i])
+            body = r.split("=", 1)[1] if "=" in r else r
+            codes = [int(x) for x in re.findall(r"(\d+)%Z|\b(\d+)\b", body.split(":")[0]) for x in x if x] or [0]
+            for code in codes:
+                kind = "clause-%d-%s" % (code, self.CLAUSES.get(code, "unknown"))
+                if kind in seen:
+                    continue
+                seen.add(kind)
+                ctx.oracle.append({"kind": kind, "term": terms[i], "harness": ctx.cases[i]["harness"],
+                                   "detail": "the observed behaviour of the implementation violates clause %d (%s); all clauses violated by this case: %s; "
+                                             "model and implementation %s on this case"
+                                             % (code, self.CLAUSES.get(code, "?"), codes, "DISAGREE" if terms[i] in dis else "agree")})
+
     def translate(self, ctx):
         import validate2coq
         try:
@@ -61,4 +95,19 @@ class P(vlib.Prop):
             raise vlib.Broken("translator (validate2coq) cannot translate BackOffConfig.Validate", str(e))
         ctx.translator_manifests.append(m)
         # T1: loop-free pieces of the retry path (obligations: coq/C05/Tie.v)
+        outv = os.path.join(vlib.COQ, "Generated", "C05RetryGo.v")
+        before = (open(outv).read(), os.stat(outv)) if os.path.exists(outv) else None
         vlib.go2coq(ctx, "exporter", os.path.join(HERE, "t1_spec.json"), "C05RetryGo")
+        # T1 emits the constants of a `consts` target in map order (differs from run to run): put that block into a
+        # canonical order, and keep the old time stamp when nothing changed, so that the proofs are not rebuilt for nothing
+        lines = open(outv).read().split("\n")
+        idx = [i for i, l in enumerate(lines) if l.startswith("Definition ") and " : Z := " in l]
+        if idx and idx == list(range(idx[0], idx[0] + len(idx))):
+            lines[idx[0]:idx[0] + len(idx)] = sorted(lines[idx[0]:idx[0] + len(idx)])
+        lines = [l for l in lines if not l.startswith("Definition backoff_durations")]
+        text = "\n".join(lines)
+        if before and before[0] == text:
+            open(outv, "w").write(text)
+            os.utime(outv, ns=(before[1].st_atime_ns, before[1].st_mtime_ns))
+        else:
+            open(outv, "w").write(text)
